@@ -308,7 +308,7 @@ def dA : Digest := [1]
 def dB : Digest := [2]
 def cA : Bytes := [1, 10]
 def cB : Bytes := [2, 20]
-def regAB : Registry := ⟨⟨[⟨.ok dA, 2⟩, ⟨.ok dB, 2⟩], ⟨.empty, 0⟩⟩, [(dA, cA), (dB, cB)], [0]⟩
+def regAB : Registry := ⟨⟨[⟨.ok dA, 2, 0⟩, ⟨.ok dB, 2, 0⟩], ⟨.empty, 0, 0⟩⟩, [(dA, cA), (dB, cB)], [0]⟩
 
 theorem st0_inv : BlobInv toyHash st0 ∧ NameInv toyHash st0 := by
   constructor
@@ -358,9 +358,9 @@ theorem F6_repaired :
 /-- the repeated digest against the repaired code (with only the `skipVerify` guard, and with all
     fixes): the corrupt download is caught; the empty digest is an error, not a panic -/
 theorem dup_and_empty_repaired :
-    let reg : Registry := ⟨⟨[⟨.ok dA, 2⟩, ⟨.ok dA, 2⟩], ⟨.empty, 0⟩⟩, [(dA, cA)], [0]⟩
+    let reg : Registry := ⟨⟨[⟨.ok dA, 2, 0⟩, ⟨.ok dA, 2, 0⟩], ⟨.empty, 0, 0⟩⟩, [(dA, cA)], [0]⟩
     let sc : Scripts := ⟨[], [], [(dA, ⟨[], [], [[.body (.flip 0) none .eof]]⟩)], none⟩
-    let regE : Registry := ⟨⟨[⟨.empty, 0⟩], ⟨.empty, 0⟩⟩, [], [0]⟩
+    let regE : Registry := ⟨⟨[⟨.empty, 0, 0⟩], ⟨.empty, 0, 0⟩⟩, [], [0]⟩
     (pull cfgD toyHash 0 reg sc st0).1 = .err .digestMismatch ∧
     (pull cfgD toyHash 0 reg sc st0).2.1.blobs dA = none ∧
     (pull cfgF toyHash 0 reg sc st0).1 = .err .digestMismatch ∧
@@ -436,7 +436,7 @@ example : HonestReg toyHash regAB ∧ BlobInv toyHash st0 ∧ CleanFor st0 regAB
 /-- **Witness (stuck plan)**: one HEAD answer with a Content-Length larger than the blob (5 for a
     2-byte blob) is persisted as the part plan; after that, a pull against the honest registry
     fails with `max retries exceeded` and leaves exactly the same resume state — so does the next. -/
-def regA : Registry := ⟨⟨[⟨.ok dA, 2⟩], ⟨.empty, 0⟩⟩, [(dA, cA)], [0]⟩
+def regA : Registry := ⟨⟨[⟨.ok dA, 2, 0⟩], ⟨.empty, 0, 0⟩⟩, [(dA, cA)], [0]⟩
 def scLie : Scripts := ⟨[], [], [(dA, ⟨[.pass 5], [], []⟩)], none⟩
 
 theorem stuck_plan_never_recovers :
@@ -457,19 +457,19 @@ theorem stuck_plan_never_recovers :
 /-- **Witness (repeated digest)**: `skipVerify` is keyed by digest and the second occurrence is a cache
     hit, so a freshly downloaded corrupt blob is never verified and the pull succeeds. -/
 theorem dup_digest_skips_verification :
-    let reg : Registry := ⟨⟨[⟨.ok dA, 2⟩, ⟨.ok dA, 2⟩], ⟨.empty, 0⟩⟩, [(dA, cA)], [0]⟩
+    let reg : Registry := ⟨⟨[⟨.ok dA, 2, 0⟩, ⟨.ok dA, 2, 0⟩], ⟨.empty, 0, 0⟩⟩, [(dA, cA)], [0]⟩
     let sc : Scripts := ⟨[], [], [(dA, ⟨[], [], [[.body (.flip 1) none .eof]]⟩)], none⟩
     let r := pull cfgW toyHash 0 reg sc st0
     r.1 = .ok () ∧ r.2.1.blobs dA = some [1, 245] ∧ [1, 245] ≠ cA := by decide
 
 /-- **Witness (empty digest)**: a served layer with digest `""` panics in `downloadBlob`. -/
 theorem empty_digest_panics :
-    let reg : Registry := ⟨⟨[⟨.empty, 0⟩], ⟨.empty, 0⟩⟩, [], [0]⟩
+    let reg : Registry := ⟨⟨[⟨.empty, 0, 0⟩], ⟨.empty, 0, 0⟩⟩, [], [0]⟩
     (pull cfgW toyHash 0 reg Scripts.honest st0).1 = .panic .emptyDigest := by decide
 
 /-- **Witness (size never compared)**: the manifest declares 7 bytes, the blob has 2, the pull succeeds. -/
 theorem size_lie_accepted :
-    let reg : Registry := ⟨⟨[⟨.ok dA, 7⟩], ⟨.empty, 0⟩⟩, [(dA, cA)], [0]⟩
+    let reg : Registry := ⟨⟨[⟨.ok dA, 7, 0⟩], ⟨.empty, 0, 0⟩⟩, [(dA, cA)], [0]⟩
     let r := pull cfgW toyHash 0 reg Scripts.honest st0
     r.1 = .ok () ∧ r.2.1.blobs dA = some cA ∧ cA.length ≠ 7 := by decide
 
@@ -557,7 +557,7 @@ theorem pull2_joiner_success_verified (cfg : Cfg) (hash : Bytes → Digest) (x :
     a manifest whose layer is missing.  (Repaired-variant model = current code; corrupt transfer: one flipped
     byte.) -/
 theorem concurrent_pull_during_verification_installs_missing_layer :
-    let regX : Registry := ⟨⟨[⟨.ok dA, 2⟩], ⟨.empty, 0⟩⟩, [(dA, cA)], [0]⟩
+    let regX : Registry := ⟨⟨[⟨.ok dA, 2, 0⟩], ⟨.empty, 0, 0⟩⟩, [(dA, cA)], [0]⟩
     let scA : Scripts := ⟨[], [], [(dA, ⟨[], [], [[.body (.flip 0) none .eof]]⟩)], none⟩
     let r := pull2 cfgF toyHash .atVerify dA 0 regX scA 1 regX Scripts.honest st0
     r.1 = .err .digestMismatch ∧ r.2.1 = .ok () ∧ r.2.2.blobs dA = none ∧
